@@ -45,10 +45,18 @@ func runExtras(l *loaded, run *PropRun, prop, tier string) {
 				frameParamObligations(l, run, k, []string{p}, "options")
 			}
 		}
-	case "C01", "C06", "C19":
+	case "C01", "C06":
 		fragmentTagObligations(l, run)
 	case "C05", "C15":
 		pointableObligations(l, run)
+	case "C19", "C02":
+		witnessObligation(run, "bounded/expandPathItem/ref-with-siblings-is-replaced-by-its-target",
+			"ExpandSpec on one document: a path item with a $ref next to a parameters list of its own",
+			"pathitem_ref_siblings_test.go", "TestVerifWitnessPathItemRefWithSiblings",
+			"the dereferenced path item is a merge of the target and the sibling members")
+		if prop == "C19" {
+			fragmentTagObligations(l, run)
+		}
 	case "C04":
 		terminationWitness(run)
 	case "C14":
@@ -269,4 +277,29 @@ func fragmentTagObligations(l *loaded, run *PropRun) {
 		run.Extra = append(run.Extra, &Obligation{Name: "tags/none", Kind: "frame", Props: []string{run.Prop}, Solver: "go/types", Expect: "unsat", Status: "failed",
 			Src: "some kind embeds VendorExtensible", Model: "no struct embeds VendorExtensible any more: the obligation no longer binds"})
 	}
+}
+
+// witnessObligation: an input class that the contracts do not cover (here: decoding a reference target into a holder that
+// is not empty - the JSON model says the present members are overwritten, encoding/json merges composite members) is
+// represented by one bounded obligation that runs the real code on the recorded input. Labelled bounded, never counted as
+// proved; when it fails the failure is matched against the known findings.
+func witnessObligation(run *PropRun, name, bound, file, test, note string) {
+	failed, built, out := witnessStatus(run.Repo, "/verif/findings/"+file, test)
+	o := &Obligation{Name: name, Kind: "bounded", Props: []string{run.Prop}, Solver: "go test (bounded)", Expect: "unsat", Src: "bounded: " + bound}
+	switch {
+	case !built:
+		o.Status = "unknown"
+		o.Model = out
+		run.Bounded = append(run.Bounded, "bounded: "+bound+" — did not run")
+	case failed:
+		o.Status = "failed"
+		o.Model = out
+		o.replayNote = note
+		o.replayConfirmed = true
+		run.Bounded = append(run.Bounded, "bounded: "+bound+" — FAILED (recorded known finding)")
+	default:
+		o.Status = "proved"
+		run.Bounded = append(run.Bounded, "bounded (not a proof): "+bound+" — passed")
+	}
+	run.Extra = append(run.Extra, o)
 }
